@@ -30,7 +30,7 @@ EXPLANATION = (
     'makeMove/makeMoveB/makeSEEMove on a position that outlives the call (member or reference parameter; 8 named advancing '
     'functions excepted) every non-exceptional path to the exit or to the next make passes the matching unmake with the same move and undo record.'
     ' (8) the en-passant mask tables hold, for each file, exactly the neighbouring squares on the capturing rank (finite evaluation over the 8 files) and makeMove records an en-passant square only under that mask test; (4, 5 widths) every UndoInfo field and every packed field of the compact form is as wide as the Position attribute it holds unless a stated value range is narrower; (9) every fresh en-passant store is followed by fixupEPSquare (the normal form readFEN produces). Three genuine violations of the property on the pinned tree are recorded as known findings (8-bit clock and 16-bit move number in the compact form; makeMove records an en-passant square whose capture is illegal).'
-    ' Added later; (10) the attribute assignment inside every one-argument setter of Position has exactly the parameter on its right-hand side. (11) makeSEEMove / unMakeSEEMove remove and restore the same en-passant victim for every mover piece. (12) the normaliser TextIO::fixupEPSquare keeps an en-passant square exactly for a legal move of the mover\'s pawn to it (all 12 pieces x 2 destinations), scans legal moves only and clears the square otherwise. (13) each take-back reads the mover\'s colour: the parity of side-to-move flips in the make function, flips before the read in the take-back and negations of the value read is even (makeMove/unMakeMove and makeMoveB/unMakeMoveB).')
+    ' Added later; (10) the attribute assignment inside every one-argument setter of Position has exactly the parameter on its right-hand side. (11) makeSEEMove / unMakeSEEMove remove and restore the same en-passant victim for every mover piece. (12) the normaliser TextIO::fixupEPSquare keeps an en-passant square exactly for a legal move of the mover\'s pawn to it (all 12 pieces x 2 destinations), scans legal moves only and clears the square otherwise. (13) each take-back reads the mover\'s colour: the parity of side-to-move flips in the make function, flips before the read in the take-back and negations of the value read is even (makeMove/unMakeMove and makeMoveB/unMakeMoveB). (14) wherever a castling right is withdrawn because the board does not support it (readFEN; a reader of the compact form), the test looks at the king\'s home square and the rook corner of that right.')
 UNDECIDED = ('equality of hash keys of rule-equal positions as values, bit-identity after arbitrary histories, FEN round trip of '
              'counters (value-level).')
 ASSUMPTIONS = ['material domain: <= 16 men per side, pawns + promoted officers <= 8 per side (the property\'s domain)',
@@ -83,6 +83,7 @@ def run(fb, rep, tier):
     c11_see_pair(fb, rep)
     c12_ep_normaliser(fb, rep)
     c13_mover_colour_in_takeback(fb, rep)
+    c14_castle_right_sanitisers(fb, rep)
 
 
 # ----------------------------------------------------------------------------- .1
@@ -1291,3 +1292,62 @@ def c13_mover_colour_in_takeback(fb, rep):
             rep.ob(clause, 'K1 sibling agreement', '%s restores colour-dependent state with the colour of the side that made the move' % um_n, parity == 0, R.site(um, um.blocks[pos_[0]]['ev'][pos_[1]]),
                    '%d flip(s) in %s, %d flip(s) before the read in %s, value %s' % (len(fm), mk_n, sum(1 for x in before if x), um_n, 'negated' if neg else 'as read'), um.sname)
     rep.floor(clause, 'make / take-back pairs', n_pairs, 2)
+
+
+# ----------------------------------------------------------------------------- .14
+
+def c14_castle_right_sanitisers(fb, rep):
+    """K10 wherever a castling right is withdrawn because the board does not support it (readFEN does this; a reader of the
+    compact form may), the test must look at the king's home square and at the rook corner *of that right*: with the king
+    and that rook in place the withdrawal is unreachable, and with that rook missing it is reachable.  A copy of the check
+    that looks at the other rook strips a right the position has (the read-back position differs in mask, key and moves)."""
+    clause = 'C02.14'
+    rights = {}
+    for nm, ksq, rsq, kp, rp in (('H1_CASTLE', 'E1', 'H1', 'WKING', 'WROOK'), ('A1_CASTLE', 'E1', 'A1', 'WKING', 'WROOK'),
+                                 ('H8_CASTLE', 'E8', 'H8', 'BKING', 'BROOK'), ('A8_CASTLE', 'E8', 'A8', 'BKING', 'BROOK')):
+        vals = (fb.const('Position::' + nm), fb.const(ksq), fb.const(rsq), fb.const('Piece::' + kp), fb.const('Piece::' + rp))
+        if None in vals:
+            rep.broken(clause, 'constants for %s not found' % nm)
+            return
+        rights[vals[0]] = (nm,) + vals[1:]
+    n = 0
+    for f in sorted(fb.funcs.values(), key=lambda x: x.key):
+        if not f.has_cfg or not R.in_prog(f) or f.sname.split('::')[0] not in ('Position', 'TextIO'):
+            continue
+        for b, i, e in f.events():
+            if not (e.get('k') == 'asg' and e.get('op') == '&='):
+                continue
+            tgt = _strip(e.get('l'))
+            if not (isinstance(tgt, dict) and (ap(tgt) == 'this.castleMask' or (tgt.get('k') == 'var' and 'castle' in (tgt.get('n') or '').lower()))):
+                continue
+            r = _strip(e.get('r'))
+            if not (isinstance(r, dict) and 'cv' in r):
+                continue
+            cleared = [bit for bit in rights if not (r['cv'] >> bit) & 1]
+            if len(cleared) != 1:
+                continue
+            nm, ksq, rsq, kp, rp = rights[cleared[0]]
+            n += 1
+
+            def board(kv, rv):
+                def leaf(t):
+                    sq = None
+                    if t.get('k') == 'idx' and (ap(t.get('b')) or '').endswith('squares'):
+                        sq = G.tv(t.get('i'), lambda x: None)
+                    elif t.get('k') == 'call' and cname(t) == 'Position::getPiece' and t.get('args'):
+                        sq = G.tv(t['args'][0], lambda x: None)
+                    elif t.get('k') == 'call' and t.get('op') == '[]' and (ap(t.get('recv')) or '').endswith('squares') and t.get('args'):
+                        sq = G.tv(t['args'][0], lambda x: None)
+                    if sq == ksq:
+                        return ('v', kv)
+                    if sq == rsq:
+                        return ('v', rv)
+                    return None
+                return leaf
+            in_place = G.excluded_under(f, b, board(kp, rp))
+            rook_gone = not G.excluded_under(f, b, board(kp, 0))
+            king_gone = not G.excluded_under(f, b, board(0, rp))
+            rep.ob(clause, 'K10 sibling agreement', '%s: the %s right is withdrawn exactly when its king or its own rook is not at home' % (f.sname.split('::')[-1], nm),
+                   in_place and rook_gone and king_gone, R.site(f, e),
+                   'unreachable with king and rook in place: %s; reachable without the rook: %s; without the king: %s' % (in_place, rook_gone, king_gone), f.sname)
+    rep.floor(clause, 'board-dependent withdrawals of a castling right', n, 4)
